@@ -12,6 +12,8 @@ def instances(tier):
         yield 'core5', dict(BASE, max_len=5, win_end=12), 'AlphaC08core', None
         yield 'nest6', dict(BASE, max_len=6, win_end=12), 'AlphaC08nest', None
         yield 'inc6', dict(BASE, max_len=6, win_end=12, emit_inv='EmitInc'), 'AlphaC08inc', None
+        # command-line symbols whose names merely begin with the name of a symbol the ISA definition predefines (SYM2)
+        yield 'core4-command-line-symbols', dict(BASE, max_len=4, win_end=12, defines=['SYM2X=5', 'SYM2_WIDE', 'XSYM2=1']), 'AlphaC08core', None
         yield 'core4-tabs', dict(BASE, max_len=4, win_end=12, directive_tabs=True), 'AlphaC08core', None
         yield 'nest5-tabs', dict(BASE, max_len=5, win_end=12, directive_tabs=True), 'AlphaC08nest', None
         yield 'wide3', dict(BASE, max_len=3, win_end=12), 'AlphaC08wide', None
@@ -20,6 +22,7 @@ def instances(tier):
         yield 'core6', dict(BASE, max_len=6, win_end=12), 'AlphaC08core', None
         yield 'nest8', dict(BASE, max_len=8, win_end=12), 'AlphaC08nest', None
         yield 'inc7', dict(BASE, max_len=7, win_end=12, emit_inv='EmitInc'), 'AlphaC08inc', None
+        yield 'core5-command-line-symbols', dict(BASE, max_len=5, win_end=12, defines=['SYM2X=5', 'SYM2_WIDE', 'XSYM2=1']), 'AlphaC08core', None
         yield 'core5-tabs', dict(BASE, max_len=5, win_end=12, directive_tabs=True), 'AlphaC08core', None
         yield 'nest7-tabs', dict(BASE, max_len=7, win_end=12, directive_tabs=True), 'AlphaC08nest', None
         yield 'wide4', dict(BASE, max_len=4, win_end=12), 'AlphaC08wide', None
@@ -32,7 +35,7 @@ COND_INV = ['SignFormAgrees', 'OperatorsPartition', 'QuotesCarryNoMeaning', 'Tru
 def _num(v, style):
     if v < 0:
         return f'(0-{_num(-v, style)})'
-    return {0: str(v), 1: hex(v), 2: '$%x' % v, 3: '%' + bin(v)[2:] if v < 256 else str(v)}[style]
+    return {0: str(v), 1: hex(v), 2: '$%x' % v, 3: '%' + bin(v)[2:] if v < 256 else str(v), 4: '%XH' % v}[style]
 
 
 def cond_text(s, style):
@@ -53,7 +56,7 @@ def cond_eval(e):
     from harness import runner
     from harness.carrier import carrier_yaml
     s = e['s']
-    for style in range(4):
+    for style in range(5):
         text = cond_text(s, style)
         case = {'config': carrier_yaml(), 'files': {'main.asm': text}}
         obs = runner.run_case(case)
@@ -95,7 +98,7 @@ def run(chk):
                  'AsmCore!ReadStep (Trace_Read.tla): compiled flag, mute flag, current zone, condition stack depth and branch state, and '
                  'label scope identity; corrupted traces must be rejected.')
     chk.rule += (' Meaning of a condition (spec/Cond.tla): scenarios L op R with L = a/b through a #define, R = c/d, six operators, R quoted or not, '
-                 'numbers spelled decimal / 0x / $ / binary, and the bare form; integers are compared (each side truncated toward zero), quotes and '
+                 'numbers spelled decimal / 0x / $ / binary / with an H suffix (AH, 10H, 68H), and the bare form; integers are compared (each side truncated toward zero), quotes and '
                  'spelling carry no meaning; TLC checks the sign-of-difference formulation against the direct one; the real code must select the branch Holds says.')
     chk.assumptions = ['an evaluated condition over a valueless symbol, and a bare #if over an undefined symbol, are not generated; S == v over an undefined symbol is false (documentation and code agree)',
                        'lines inside unselected branches are well-formed', 'unterminated blocks at end of file are not generated']
